@@ -64,6 +64,8 @@ EXTRA = [
     # an interface whose only parent is a concrete class / another interface, with no parentless interface in the module
     "class Base\n    def b: Int := 1\ntype Solid: Base\n    def vol(self) -> Int\n",
     "class Base2\n    def b: Int := 1\ntype Mid: Base2\n    def m(self) -> Int\ntype Leaf: Mid\n    def l(self) -> Int\n",
+    # variadic parameters of functions, methods and constructors
+    "def total(scale: Int, vararg rest: Int) -> Int => scale\nprint(total(2, 5))\nclass Bag(vararg items: Int)\n    def n: Int := 0\n    def add(self, vararg more: Int) => print(1)\n",
     "class Base(def label: Str)\n    def show(self) -> Str => self.label\nclass Item(def name: Str, def nickname: Str): Base(\"<{nickname}>\")\ndef i := Item(\"p\", \"q\")\nprint(i.name)\nprint(i.show())\n",
 ]
 
